@@ -390,7 +390,7 @@ func genC06base(t *rapid.T) C06Case {
 		}
 		if gen.Chance(t, "veryLong", 2) {
 			// longer than any plausible block size, edited at both ends
-			n = gen.Int(t, "nVeryLong", 300, 700)
+			n = gen.Int(t, "nVeryLong", 300, 700*gen.Scale())
 			a := make([]val.V, n)
 			for i := range a {
 				a[i] = float64(i % gen.Int(t, "mod", 2, 400))
@@ -439,8 +439,8 @@ func genC06base(t *rapid.T) C06Case {
 			// a long array inside a long array: scalars on both sides of
 			// the one element that changes, the change itself deep inside
 			// another long array
-			nOuter := gen.Int(t, "nOuter", 60, 180)
-			nInner := gen.Int(t, "nInner", 60, 180)
+			nOuter := gen.Int(t, "nOuter", 60, 180*gen.Scale())
+			nInner := gen.Int(t, "nInner", 60, 180*gen.Scale())
 			outer := make([]val.V, nOuter)
 			outerMod := gen.Int(t, "outerMod", 1, 7)
 			for i := range outer {
